@@ -10,6 +10,7 @@ from typing import (
     ClassVar,
     Dict,
     List,
+    Literal,
     Optional,
     Set,
     Tuple,
@@ -293,6 +294,19 @@ else:
                 current_path,
                 "union_mismatch",
             )
+
+        # Literal validation: the value must be one of the listed constants
+        # (this is what tells discriminated variants such as image/audio apart)
+        if origin is Literal:
+            if not any(
+                type(value) is type(lit) and value == lit for lit in get_args(expected)
+            ):
+                raise ValidationError(
+                    "value is not one of the permitted literals",
+                    current_path,
+                    "literal_error",
+                )
+            return value
 
         # Simple type validation
         if origin is None:
